@@ -82,8 +82,94 @@ fn roundtrip_variant(variant: &str, bytes: &[u8]) -> String {
     format!("ok w={:016x} len={} re={} rw={}", fnv(&w), w.len(), re, rw)
 }
 
+/// `len:fnv(written):content-len:fnv(content)` of a parsed package — what a source kind delivered
+fn summary(p: &rpm::Package) -> String {
+    let mut w = Vec::new();
+    match p.write(&mut w) {
+        Ok(()) => format!("{}:{:016x}:{}:{:016x}", w.len(), fnv(&w), p.content.len(), fnv(&p.content)),
+        Err(_) => "werr".into(),
+    }
+}
+fn summ(r: &Result<rpm::Package, rpm::Error>) -> String {
+    match r {
+        Ok(p) => summary(p),
+        Err(_) => "err".into(),
+    }
+}
+
+/// `openrt01 BYTES`: the four entry points of the read side on the same bytes — `Package::parse` on a slice (`s=`), on an
+/// `io::Cursor` (`c=`), `Package::open` on a file holding the bytes (`o=`, `&Path` argument: std's default-capacity `BufReader<File>`;
+/// `os=` the same file opened through a `&str` argument), plus `eq=` (the four VALUES equal: metadata and content);
+/// then the sink side: `Package::write_file` of the slice-parsed value to a fresh path (`wf=` length:fnv of the file's bytes as
+/// read back with `std::fs::read`), `Package::open` of that file (`wo=`), `weq=` (that value equals the one written).
+fn openrt(bytes: &[u8]) -> String {
+    static N: std::sync::atomic::AtomicU64 = std::sync::atomic::AtomicU64::new(0);
+    let k = N.fetch_add(1, std::sync::atomic::Ordering::Relaxed);
+    let base = std::env::temp_dir().join(format!("rpmverif-c01o-{}-{}", std::process::id(), k));
+    let (pin, pout) = (base.with_extension("in.rpm"), base.with_extension("out.rpm"));
+    if std::fs::write(&pin, bytes).is_err() {
+        return "io-setup".into();
+    }
+    let s = rpm::Package::parse(&mut &bytes[..]);
+    let c = rpm::Package::parse(&mut std::io::Cursor::new(bytes.to_vec()));
+    let o = rpm::Package::open(pin.as_path());
+    let os = rpm::Package::open(pin.to_str().unwrap_or(""));
+    let eq = match (&s, &c, &o, &os) {
+        (Ok(a), Ok(b), Ok(d), Ok(e)) => [b, d, e].iter().all(|x| x.metadata == a.metadata && x.content == a.content),
+        (Err(_), Err(_), Err(_), Err(_)) => true,
+        _ => false,
+    };
+    let mut out = format!("s={} c={} o={} os={} eq={}", summ(&s), summ(&c), summ(&o), summ(&os), eq);
+    if let Ok(p) = &s {
+        let (wf, wo, weq) = match p.write_file(&pout) {
+            Ok(()) => {
+                let back = std::fs::read(&pout).unwrap_or_default();
+                let re = rpm::Package::open(&pout);
+                let weq = matches!(&re, Ok(q) if q.metadata == p.metadata && q.content == p.content);
+                (format!("{}:{:016x}", back.len(), fnv(&back)), summ(&re), weq)
+            }
+            Err(_) => ("err".into(), "-".into(), false),
+        };
+        out += &format!(" wf={} wo={} weq={}", wf, wo, weq);
+    }
+    let _ = std::fs::remove_file(&pin);
+    let _ = std::fs::remove_file(&pout);
+    out
+}
+
+/// a structurally parseable package LARGER than std's default `BufReader` capacity (8192): the boundary falls into the signature
+/// header, the main header's index, its store, or the payload, depending on `shape`
+fn gen_package_big(rng: &mut Rng, shape: u64) -> Vec<u8> {
+    let lead = gen_lead(rng, false);
+    let mut sig = gen_header_wf(rng);
+    let mut hdr = gen_header_wf(rng);
+    let n0 = rng.below(40) as usize;
+    let mut payload = rng.bytes(n0);
+    let big = 8192 - 96 - 200 + rng.below(400) as usize; // a blob that puts the 8 KiB mark near the end of the part it sits in
+    match shape % 5 {
+        0 => { let b = rng.bytes(big); sig.push(267 + rng.below(3) as u32, 7, &TData::Bytes(b)); }
+        1 => { let b = rng.bytes(big); hdr.push(1000 + rng.below(200) as u32, 7, &TData::Bytes(b)); }
+        2 => {
+            // many small entries: the mark falls into the INDEX of the main header
+            for i in 0..(500 + rng.below(40)) {
+                let d = TData::U32(vec![i as u32]);
+                hdr.push(2000 + i as u32, 4, &d);
+            }
+        }
+        3 => { let k = 8192 + rng.below(9000) as usize; payload = rng.bytes(k); }
+        _ => {
+            // total length exactly 8191 / 8192 / 8193 / 16384 (payload sized to fit)
+            let cur = assemble(&lead, &sig, 0, &hdr, &[]).len();
+            let want = *rng.pick(&[8191usize, 8192, 8193, 16384, 16385]);
+            payload = rng.bytes(want.saturating_sub(cur));
+        }
+    }
+    assemble(&lead, &sig, 0, &hdr, &payload)
+}
+
 pub fn eval(op: &str, a: &[&str]) -> Option<String> {
     match op {
+        "openrt01" => Some(openrt(&arg_bytes(a[0]))),
         "pkgrtv" => Some(roundtrip_variant(a[0], &arg_bytes(a[1]))),
         "pkgrt" => Some(roundtrip(&arg_bytes(a[0]), false)),
         "metart" => Some(roundtrip(&arg_bytes(a[0]), true)),
@@ -100,6 +186,7 @@ pub fn gen(ctx: &mut Ctx) {
             ctx.req(&format!("metart @{}", p.display()));
             ctx.req(&format!("pkgrtv clear @{}", p.display()));
             ctx.req(&format!("pkgrtv newempty @{}", p.display()));
+            ctx.req(&format!("openrt01 @{}", p.display()));
         }
         if let Ok(d) = std::fs::read_dir("/repo/test_assets/fixture_packages") {
             let mut v: Vec<_> = d.filter_map(|e| e.ok()).map(|e| e.path()).collect();
@@ -107,9 +194,23 @@ pub fn gen(ctx: &mut Ctx) {
             for p in v {
                 if p.is_file() {
                     ctx.req(&format!("pkgrt @{}", p.display()));
+                    ctx.req(&format!("openrt01 @{}", p.display()));
                 }
             }
         }
+    }
+    // every entry point / source kind on packages larger than the default BufReader capacity, some truncated / damaged
+    let nb = ctx.q(120u64, 2_000) / sn;
+    let _ = std::fs::create_dir_all("work/c01-blobs");
+    for i in 0..nb {
+        let mut bytes = gen_package_big(&mut ctx.rng, i);
+        match i % 12 {
+            10 => { let k = ctx.rng.below(bytes.len() as u64 + 1) as usize; bytes.truncate(k); }
+            11 => { let k = 8192 - 3 + ctx.rng.below(6) as usize; bytes.truncate(k.min(bytes.len())); }
+            _ => {}
+        }
+        let arg = blob_arg("work/c01-blobs", &format!("s{}-{}-{}", ctx.seed, si, i), &bytes);
+        ctx.req(&format!("openrt01 {}", arg));
     }
     let n = ctx.q(20_000u64, 400_000) / sn;
     for i in 0..n {
@@ -142,6 +243,9 @@ pub fn gen(ctx: &mut Ctx) {
         let op = if i % 5 == 4 { "metart" } else { "pkgrt" };
         ctx.req(&format!("{} {}", op, hx(&bytes)));
         // values changed in memory before writing: cleared / fresh signature header (C01.cleared_fixpoint)
+        if i % 25 == 3 {
+            ctx.req(&format!("openrt01 {}", hx(&bytes)));
+        }
         if i % 20 == 0 {
             ctx.req(&format!("pkgrtv {} {}", if i % 40 == 0 { "clear" } else { "newempty" }, hx(&bytes)));
         }
